@@ -23,9 +23,7 @@ Inductive vtree : Type :=
 | VStr (s : string)                      (* StringType / str *)
 | VOther (tag : string)                  (* any other non-container object: bytes, timestamp,
                                             duration, a type object ...; never scanned into *)
-| VErr (td : bool)                        (* a celpy.CELEvalError object; [td]: celpy's tree_dump succeeds
-                                            on its .tree (or it has none).  tree_dump raises IndexError on
-                                            trees such as `x == []` or `{'a': {}}` *)
+| VErr                                   (* a celpy.CELEvalError object *)
 | VList (l : list vtree)                 (* ListType / list / tuple *)
 | VMap (kvs : list (vtree * vtree)).     (* MapType / dict, insertion ordered; keys are values too *)
 
@@ -37,7 +35,7 @@ Section VtreeInd.
   Hypothesis Hfloat : forall m e, P (VFloat m e).
   Hypothesis Hstr : forall s, P (VStr s).
   Hypothesis Hother : forall t, P (VOther t).
-  Hypothesis Herr : forall td, P (VErr td).
+  Hypothesis Herr : P VErr.
   Hypothesis Hlist : forall l, Forall P l -> P (VList l).
   Hypothesis Hmap : forall kvs, Forall (fun kv => P (fst kv) /\ P (snd kv)) kvs -> P (VMap kvs).
 
@@ -49,7 +47,7 @@ Section VtreeInd.
     | VFloat m e => Hfloat m e
     | VStr s => Hstr s
     | VOther t => Hother t
-    | VErr td => Herr td
+    | VErr => Herr
     | VList l =>
         Hlist l ((fix go (l : list vtree) : Forall P l :=
                     match l with
@@ -72,11 +70,11 @@ End VtreeInd.
      case MapType() | dict(): for key, sub in items: scan key; scan sub
      case ListType() | list() | tuple(): for sub in value: scan sub
    return None
-   [scan v = true] iff an error object is found.  The PermFail is built from the FIRST
-   error object in iteration order, with tree_dump(error.tree): see [first_err]. *)
+   [scan v = true] iff a PermFail is returned (which error is reported first is
+   message prose and not modelled). *)
 Fixpoint scan (v : vtree) : bool :=
   match v with
-  | VErr _ => true
+  | VErr => true
   | VList l => existsb scan l
   | VMap kvs =>
       (fix go (kvs : list (vtree * vtree)) : bool :=
@@ -85,30 +83,6 @@ Fixpoint scan (v : vtree) : bool :=
          | (k, x) :: r => scan k || scan x || go r
          end) kvs
   | _ => false
-  end.
-
-(* the error object check_for_celevalerror reports: the first one in iteration order (dict:
-   key, then value, item by item; list: item by item); the result is its [td] flag *)
-Fixpoint first_err (v : vtree) : option bool :=
-  match v with
-  | VErr td => Some td
-  | VList l =>
-      (fix go (l : list vtree) : option bool :=
-         match l with
-         | [] => None
-         | x :: r => match first_err x with Some t => Some t | None => go r end
-         end) l
-  | VMap kvs =>
-      (fix go (kvs : list (vtree * vtree)) : option bool :=
-         match kvs with
-         | [] => None
-         | (k, x) :: r =>
-             match first_err k with
-             | Some t => Some t
-             | None => match first_err x with Some t => Some t | None => go r end
-             end
-         end) kvs
-  | _ => None
   end.
 
 (* structural equality (ordered maps: celpy's MapType is an insertion-ordered dict and
@@ -121,7 +95,7 @@ Fixpoint vtree_eqb (a b : vtree) {struct a} : bool :=
   | VFloat m1 e1, VFloat m2 e2 => Z.eqb m1 m2 && Z.eqb e1 e2
   | VStr x, VStr y => String.eqb x y
   | VOther x, VOther y => String.eqb x y
-  | VErr x, VErr y => Bool.eqb x y
+  | VErr, VErr => true
   | VList xs, VList ys =>
       (fix go (xs ys : list vtree) : bool :=
          match xs, ys with
@@ -160,7 +134,7 @@ Fixpoint vset (k : string) (v : vtree) (kvs : list (vtree * vtree)) : list (vtre
 
 (* ---------- what Runner.evaluate did at one evaluation site ---------- *)
 Inductive raw :=
-| RRaise (td : bool)    (* raised celpy.CELEvalError; [td]: tree_dump succeeds on err.tree *)
+| RRaise                (* raised celpy.CELEvalError *)
 | RRaiseOther           (* raised anything else *)
 | RVal (v : vtree).     (* returned a value (possibly with embedded error objects) *)
 
@@ -176,36 +150,26 @@ Definition msg_unknown (loc : string) : string := "Unknown failure evaluating `"
 Definition fail_eval (loc : string) : outcome := PermFail (Some (msg_eval loc)) None.
 Definition fail_unknown (loc : string) : outcome := PermFail (Some (msg_unknown loc)) None.
 
-(* Python exceptions that can leave the modelled functions *)
-Inductive exn := IndexError | ValueError | TypeError.
-Inductive res (A : Type) := Done (a : A) | Raised (e : exn).
-Arguments Done {A}. Arguments Raised {A}.
-
 (* ---------- evaluate ----------
      try:    v = expression.evaluate(inputs)
-             if err := check_for_celevalerror(v, location): return err   # tree_dump inside the try
+             if err := check_for_celevalerror(v, location): return err
              return v
-     except celpy.CELEvalError as err:
-             tree = tree_dump(err.tree) ...     # NOT protected: an IndexError raised here escapes
-             return PermFail("Error evaluating ...")
-     except: return PermFail("Unknown failure evaluating ...") *)
+     except celpy.CELEvalError as err:  return PermFail("Error evaluating `loc` (at <tree>) ...")
+     except:                            return PermFail("Unknown failure evaluating `loc`.")
+   Nothing in the handlers can raise: the tree text comes from _tree_text, which swallows the
+   IndexError celpy's tree_dump raises on some trees (repaired in /repo commit 4ee1f6b; before
+   that an error whose tree tree_dump cannot print escaped from the handler). *)
 Inductive eres :=
 | ENone                 (* no expression: returns None *)
 | EVal (v : vtree)
 | EFail (o : outcome).
 
-Definition evaluate (e : option raw) (loc : string) : res eres :=
+Definition evaluate (e : option raw) (loc : string) : eres :=
   match e with
-  | None => Done ENone
-  | Some (RRaise true) => Done (EFail (fail_eval loc))
-  | Some (RRaise false) => Raised IndexError
-  | Some RRaiseOther => Done (EFail (fail_unknown loc))
-  | Some (RVal v) =>
-      match first_err v with
-      | None => Done (EVal v)
-      | Some true => Done (EFail (fail_eval loc))
-      | Some false => Done (EFail (fail_unknown loc))     (* tree_dump raised inside the try *)
-      end
+  | None => ENone
+  | Some RRaise => EFail (fail_eval loc)
+  | Some RRaiseOther => EFail (fail_unknown loc)
+  | Some (RVal v) => if scan v then EFail (fail_eval loc) else EVal v
   end.
 
 (* ---------- overlays ---------- *)
@@ -213,6 +177,10 @@ Definition evaluate (e : option raw) (loc : string) : res eres :=
 Inductive index :=
 | IAt (n : nat)
 | ISub (kvs : list (string * index)).
+
+Inductive exn := IndexError | ValueError | TypeError.
+Inductive res (A : Type) := Done (a : A) | Raised (e : exn).
+Arguments Done {A}. Arguments Raised {A}.
 
 (* _overlay_applier(base, index, values):
      overlaid = deepcopy(base)
@@ -248,23 +216,18 @@ Fixpoint apply_idx (i : index) (old : option vtree) (values : list vtree) {struc
 Definition msg_bad_overlay (loc : string) : string := "Bad overlay structure for `" ++ loc ++ "`".
 
 (* ---------- evaluate_overlay ----------
-   NB the applier runs outside the try block: an IndexError would escape; and the
-   CELEvalError handler calls tree_dump unprotected, as in [evaluate]. *)
+   NB the applier runs outside the try block: an IndexError would escape. *)
 Definition evaluate_overlay (idx : index) (r : raw) (base : list (vtree * vtree)) (loc : string)
   : res (uoutcome vtree) :=
   match idx with
   | IAt _ => Done (UOut (PermFail (Some (msg_bad_overlay loc)) (Some loc)))
   | ISub _ =>
       match r with
-      | RRaise true => Done (UOut (fail_eval loc))
-      | RRaise false => Raised IndexError                   (* tree_dump in the except handler *)
+      | RRaise => Done (UOut (fail_eval loc))
       | RRaiseOther => Done (UOut (fail_unknown loc))
       | RVal v =>
-          match first_err v with
-          | Some true => Done (UOut (fail_eval loc))
-          | Some false => Done (UOut (fail_unknown loc))
-          | None =>
-               match v with
+          if scan v then Done (UOut (fail_eval loc))
+          else match v with
                | VList values =>
                    match apply_idx idx (Some (VMap base)) values with
                    | Done m => Done (UVal m)
@@ -272,6 +235,5 @@ Definition evaluate_overlay (idx : index) (r : raw) (base : list (vtree * vtree)
                    end
                | _ => Done (UOut (PermFail (Some (msg_bad_overlay loc)) (Some loc)))
                end
-          end
       end
   end.
